@@ -89,7 +89,7 @@ bool completable(const Req& q) {
     case IORING_OP_TIMEOUT: return vmcrt::now_ns() >= q.due;
     case IORING_OP_READV: {
       Obj* o = obj(q.fd);
-      if (!o || o->kind != PIPE_R) return true;
+      if (!o || o->kind != PIPE_R) return true;   // (a 6.x kernel arms a poll for O_NONBLOCK pipes too: uring_conf)
       const Pipe& p = g_pipes[o->pipe];
       return !p.buf.empty() || !p.w_open;
     }
@@ -122,6 +122,7 @@ int execute(Req& q) {
       if (o->kind == PIPE_R && !wr) {
         Pipe& p = g_pipes[o->pipe];
         size_t want = 0; for (unsigned i = 0; i < q.len; ++i) want += iov[i].iov_len;
+        if (p.buf.empty() && p.w_open && want > 0) return -EAGAIN;
         size_t n = std::min(want, p.buf.size()); if (one && n > 1) n = 1;
         size_t done = 0;
         for (unsigned i = 0; i < q.len && done < n; ++i) { size_t k = std::min(iov[i].iov_len, n - done); for (size_t j = 0; j < k; ++j) { static_cast<unsigned char*>(iov[i].iov_base)[j] = p.buf.front(); p.buf.pop_front(); } done += k; }
@@ -132,6 +133,7 @@ int execute(Req& q) {
         Pipe& p = g_pipes[o->pipe];
         if (!p.r_open) return -EPIPE;
         size_t want = 0; for (unsigned i = 0; i < q.len; ++i) want += iov[i].iov_len;
+        if ((int)p.buf.size() >= p.cap && want > 0) return -EAGAIN;
         size_t n = std::min(want, (size_t)p.cap - p.buf.size()); if (one && n > 1) n = 1;
         size_t done = 0;
         for (unsigned i = 0; i < q.len && done < n; ++i) { size_t k = std::min(iov[i].iov_len, n - done); for (size_t j = 0; j < k; ++j) p.buf.push_back(static_cast<const unsigned char*>(iov[i].iov_base)[j]); done += k; }
